@@ -325,7 +325,7 @@ class Validator:
         # We check if the request object is part of the service proto package.
         # If not, it comes from a different module.
         address = rpc.input.meta.address
-        if address.proto_package.startswith(address.api_naming.proto_package):
+        if address.in_api_package:
             sample["request_module_name"] = sample["module_name"]
         else:
             sample["request_module_name"] = address.python_import.module
@@ -1207,7 +1207,7 @@ def _get_sample_imports(sample: Dict, rpc: wrappers.Method) -> List[str]:
     address = rpc.input.meta.address
     # This checks if the request message is part of the service proto package.
     # If not, we should try to include a separate import statement.
-    if address.proto_package.startswith(address.api_naming.proto_package):
+    if address.in_api_package:
         return [module_import]
     else:
         request_import = str(address.python_import)
